@@ -345,6 +345,29 @@ def stepN (n : CfgN) (f : Fac) (s : NReg) : Tok → NReg
 
 def runN (n : CfgN) (f : Fac) (s : NReg) (toks : List Tok) : NReg := toks.foldl (stepN n f) s
 
+/-! ### Two models alive in one process (wave 7)
+
+The theorems are about ONE registry; that the registry of a model is its own — `agent_type_map`, `agents`,
+`next_agent_id` are instance attributes set in `__init__`, not class attributes or module globals — is a mechanism
+fact (`registryPerInstance`, probed with two live models).  `Two` is the pair of registries; with the fact an
+operation touches the addressed one only; without it (a class-level `agent_type_map`) both models see one type map. -/
+
+structure Two where
+  a : Reg
+  b : Reg
+
+def stepTwo (perInstance : Bool) (f : Fac) (t : Two) (x : Bool × Op) : Two :=
+  if x.1 then
+    let a' := step f t.a x.2
+    { a := a', b := if perInstance then t.b else { t.b with tmap := a'.tmap } }
+  else
+    let b' := step f t.b x.2
+    { a := if perInstance then t.a else { t.a with tmap := b'.tmap }, b := b' }
+
+def runTwo (perInstance : Bool) (f : Fac) (t : Two) (ops : List (Bool × Op)) : Two := ops.foldl (stepTwo perInstance f) t
+
+def opsFor (who : Bool) (ops : List (Bool × Op)) : List Op := (ops.filter (fun x => x.1 == who)).map (·.2)
+
 /-- no `create_agent` is called while a FACTORY is running (re-entrant creation from `initialize()` only) -/
 def facNestFree (n : CfgN) (f : Fac) : NReg → List Tok → Bool
   | _, [] => true
